@@ -196,7 +196,10 @@ func runMethods(t *testing.T, sc *scen.Scenario, round string) bool {
 		} else if m.Args > 1 {
 			cls = append(cls, "args:positional")
 		}
-		run.Case(true, evid.Hash("method", m.Function, sc.Methods.Seed, sc.Methods.Invert), cls...)
+		if m.Pass > 0 {
+			cls = append(cls, "second-call-on-the-same-client")
+		}
+		run.Case(true, evid.Hash("method", m.Function, sc.Methods.Seed, sc.Methods.Invert, m.Pass), cls...)
 		if m.OK {
 			continue
 		}
